@@ -480,7 +480,7 @@ class Interp:
         qn = self.qualname_of(fn)
         if qn in self.native_only:
             return fn(*args, **kwargs)
-        if not (contains_sym(args) or contains_sym(kwargs) or qn in self.force_interp or self._closure_symbolic(fn)):
+        if not (contains_sym(args) or contains_sym(kwargs) or qn in self.force_interp or self._closure_symbolic(fn) or self.call_contracts):
             return fn(*args, **kwargs)
         node, filename, sha = func_node(fn)
         if qn not in self.interpreted:
